@@ -6,6 +6,7 @@
 #include "h3Index.h"
 #include "iterators.h"
 #include "drv_util.h"
+H3Index makeDirectChild(H3Index h, int cellNumber);  // h3Index.c, not declared in a header
 
 int verif_hasGoodTopBits(H3Index h);
 int verif_hasAny7UptoRes(H3Index h, int res);
@@ -75,6 +76,25 @@ int ops_core(int n, char **a) {
         // the loop functions that c2lean translates by unrolling
         H3Index h = pH(a[1]);
         printf("ok %d %" PRIx64 " %" PRIx64 "\n", (int)_h3LeadingNonZeroDigit(h), _h3Rotate60ccw(h), _h3Rotate60cw(h));
+        return 1;
+    }
+    if (isop(op, "genfn2") && n == 4) {
+        // the functions c2lean translates with out parameters: return code and the out value (preset by the caller,
+        // so "untouched on error" is compared too); `-` where the C call would be undefined (shift by a negative
+        // amount), exactly where the translation's definedness companion says so
+        H3Index h = pH(a[1]); int r = (int)pI(a[2]); H3Index o = pH(a[3]);
+        H3Index o1 = o, o2 = o; int64_t o3 = (int64_t)o;
+        H3Error e1 = H3_EXPORT(cellToParent)(h, r, &o1);
+        H3Error e2 = H3_EXPORT(cellToCenterChild)(h, r, &o2);
+        H3Error e3 = H3_EXPORT(cellToChildrenSize)(h, r, &o3);
+        printf("ok %d %" PRIx64 " %d %" PRIx64 " %d %" PRIx64 " %d %" PRIx64 " %" PRIx64, (int)e1, o1, (int)e2, o2, (int)e3,
+               (uint64_t)o3, H3_EXPORT(isPentagon)(h), _h3RotatePent60ccw(h), _h3RotatePent60cw(h));
+        if (H3_GET_RESOLUTION(h) < 15) printf(" %" PRIx64, makeDirectChild(h, r)); else printf(" -");
+        if (r <= 15) {
+            H3Index o4 = o; setH3Index(&o4, r, H3_GET_BASE_CELL(h), (Direction)H3_GET_INDEX_DIGIT(h, 1));
+            printf(" %" PRIx64, o4);
+        } else printf(" -");
+        printf(" 111111\n");
         return 1;
     }
     if (isop(op, "ispent") && n == 2) { printf("ok %d\n", H3_EXPORT(isPentagon)(pH(a[1]))); return 1; }
